@@ -213,24 +213,32 @@ def r3(ctx):
                  f'Fragment.__eq__ does NOT compare {k} correctly ({bad_n} cases differ): fragments differing in {k} can be merged into one molecule',
                  key=f'Fragment.__eq__:{k}', nontrivial=(k == 'distance'), what=f'Fragment.__eq__ does not compare {k}')
     ctx.emit('C06-R3', missing['distance'] == 0, FRAGMENT, f, f'radius test over {ncase} cases == min(|start diff|, |end diff|) > radius; matching fragments are decided by umi_eq', key='Fragment.__eq__:radius-predicate')
-    # umi_eq
+    # umi_eq as decision procedure over (identical, same length, allowed distance k, Hamming distance d)
     u = ctx.fn(FRAGMENT, 'Fragment.umi_eq')
-    cfg = CFG(u.body, exceptions=False)
-    sig = []
-    for s in u.body:
-        if isinstance(s, ast.If):
-            sig.append(src(s.test))
-    rets = [src(r.value) for r in walk_no_nested(u) if isinstance(r, ast.Return)]
-    ok = 'self.umi == other.umi' in sig and 'self.umi_hamming_distance == 0' in sig and any('hamming_distance(self.umi, other.umi) <= self.umi_hamming_distance' in r.replace('\n', '').replace('  ', '') for r in
-                                                                                              [x.replace('\n', ' ') for x in rets]) or \
-        ('self.umi == other.umi' in sig and any('<= self.umi_hamming_distance' in r for r in rets))
-    ctx.emit('C06-R3', ok, FRAGMENT, u, 'umi_eq: identical UMIs match; distance 0 -> nothing else matches; otherwise Hamming distance <= allowed distance', key='umi_eq')
-    hd = [r for r in walk_no_nested(u) if isinstance(r, ast.Return) and 'hamming_distance' in src(r.value)]
-    if hd:
-        t = hd[0].value
-        if isinstance(t, ast.Compare):
-            ncase, bad = check_pred(t, lambda e: e['d'] <= e['k'], symbols=['d', 'k'], atom_name=lambda x: 'd' if (isinstance(x, ast.Call) and dotted(x.func) == 'hamming_distance') else ('k' if src(x) == 'self.umi_hamming_distance' else None))
-            ctx.emit('C06-R3', not bad, FRAGMENT, hd[0], f'UMI distance test `{src(t)[:60]}` == distance <= allowed' if not bad else f'differs: {bad[0]}', key='umi_eq:threshold')
+
+    def uatom(x):
+        if isinstance(x, ast.Compare):
+            return None
+        if isinstance(x, ast.Call) and dotted(x.func) == 'hamming_distance':
+            return 'd'
+        return 'k' if src(x) == 'self.umi_hamming_distance' else None
+    bad = []
+    nu = 0
+    for same in (True, False):
+        for samelen in (True, False):
+            facts = {'self.umi == other.umi': same, 'len(self.umi) != len(other.umi)': not samelen, 'len(self.umi) == len(other.umi)': samelen}
+            ucases = [{'k': k_, 'd': d_} for k_ in range(0, 4) for d_ in range(0, 5) if (d_ == 0) == same or not samelen]
+            for case, outs in outcomes_by_case(u.body, ucases, uatom, facts=facts):
+                nu += 1
+                want = True if same else (False if case['k'] == 0 or not samelen else case['d'] <= case['k'])
+                got = {bool(v) if isinstance(v, (bool, int)) else v for kd, v in outs if kd == 'return'}
+                if got != {want} or any(kd != 'return' for kd, v in outs):
+                    if len(bad) < 3:
+                        bad.append({'same': same, 'same_length': samelen, **case, 'outcomes': sorted(map(str, outs)), 'expected': want})
+    ctx.counters['abstract_cases'] += nu
+    ctx.emit('C06-R3', not bad, FRAGMENT, u, f'umi_eq over {nu} cases: identical UMIs match; distance 0 -> nothing else matches; otherwise same length and Hamming distance <= allowed distance' if not bad
+             else f'umi_eq differs at {bad[0]}', key='umi_eq')
+    ctx.emit('C06-R3', not bad, FRAGMENT, u, 'UMI distance test == distance <= allowed (part of the umi_eq decision table)', key='umi_eq:threshold', nontrivial=False)
     # NlaIII / CHIC match hashes
     for relpath, cls in ((FRAG_NLA, 'NlaIIIFragment'), (FRAG_CHIC, 'CHICFragment')):
         init = ctx.fn(relpath, f'{cls}.__init__')
